@@ -491,27 +491,22 @@ Proof.
 Qed.
 
 Lemma list_query_agree_related ops j o inst :
-  order_ok o = true -> order_mentions_id o = false -> live (j_owner j) inst (run ops) = true ->
+  order_ok o = true -> live (j_owner j) inst (run ops) = true ->
   exists l cands,
     related_join j o (run ops) inst = JOk l /\ sql_related j o (run ops) inst = JOk cands /\
     forall q, sql_rows (order_keys o) cands q ->
               Permutation l q /\ (total_on (order_keys o) cands -> q = l).
 Proof.
-  intros Hok Hid Hlive. set (s := run ops) in *. pose proof (inv_run ops) as Hi. fold s in Hi.
+  intros Hok Hlive. set (s := run ops) in *. pose proof (inv_run ops) as Hi. fold s in Hi.
   destruct (get_all_total (tab (j_other j) s) (related_ids j s inst)) as [rows [Hg [Hids Hincl]]].
   { intros i. apply related_ids_live. exact Hi. }
   destruct (fetch_sorted_spec o _ _ rows Hok Hg) as [l [Hf [Hp Hs]]].
   exists l, rows. split; [exact Hf|]. split.
-  - unfold sql_related. rewrite Hok, Hid, Hlive. cbn [negb orb]. f_equal.
+  - unfold sql_related. rewrite Hok, Hlive. cbn [negb]. f_equal.
     apply get_all_flat_map. unfold sql_related_sel. rewrite gen_sqlrelated_select_char.
     unfold related_ids in Hg. rewrite gen_related_select_char in Hg. exact Hg.
   - intros q Hq. apply (agree_from_perm o _ l q Hp Hs Hq).
 Qed.
-
-(* the query-flavoured related join is refused whenever the ordering names id *)
-Lemma sql_related_id_refused j o s inst :
-  order_mentions_id o = true -> sql_related j o s inst = JDbError.
-Proof. intros H. unfold sql_related. rewrite H, orb_true_r. reflexivity. Qed.
 
 (* the invariant, in the words of the property *)
 Lemma links_live ops t r :
@@ -659,35 +654,4 @@ Proof.
       destruct (pair_dec r p) as [->|]; [|reflexivity].
       destruct (pair_dec (mkpair j x y) p) as [<-|]; [|reflexivity].
       exfalso. assert (is_pair j x y (mkpair j x y) = true) by (apply is_pair_spec; reflexivity). congruence.
-Qed.
-
-(* ------------------------------------------------------------------ *)
-(* the query-flavoured related join with an ordering that names id      *)
-(* ------------------------------------------------------------------ *)
-Definition list_query_agree_related_full : Prop :=
-  forall ops j o inst,
-    order_ok o = true -> live (j_owner j) inst (run ops) = true ->
-    exists l cands,
-      related_join j o (run ops) inst = JOk l /\ sql_related j o (run ops) inst = JOk cands /\
-      forall q, sql_rows (order_keys o) cands q ->
-                Permutation l q /\ (total_on (order_keys o) cands -> q = l).
-
-Definition witness_ops : list op :=
-  [Create CA None None None None FkNone; Create CB None None None None FkNone; Add jA_rbs 1 1].
-Definition by_id : order := OOne {| k_col := CId; k_desc := false |}.
-
-Lemma related_query_id_refuted :
-  exists ops j o inst,
-    order_ok o = true /\ live (j_owner j) inst (run ops) = true /\
-    (exists b, related_join j o (run ops) inst = JOk [b]) /\
-    sql_related j o (run ops) inst = JDbError.
-Proof.
-  exists witness_ops, jA_rbs, by_id, 1. repeat split.
-  eexists. vm_compute. reflexivity.
-Qed.
-
-Lemma list_query_agree_related_full_false : ~ list_query_agree_related_full.
-Proof.
-  intros H. destruct (H witness_ops jA_rbs by_id 1 eq_refl eq_refl) as [l [cands [_ [Hq _]]]].
-  vm_compute in Hq. discriminate.
 Qed.
